@@ -6,7 +6,7 @@ Import ListNotations.
 From Coq Require Import ZArith.
 From CXV Require Import Gen.TokTy Gen.ParserTables Parse.Balanced Gen.Blocks Parse.BlocksSM.
 From CXV Require Import Base.Regex Base.Cost Gen.LexRules Lex.PlyLoop Gen.StreamTables Stream.TokBuf Fmt.TokFmt PP.Filters Misc.ReprModel Gen.Schema Parse.Fold Parse.Declarator Parse.DeclSpec Parse.EnumList Parse.BaseClause Parse.NsHeader Parse.Specs Parse.VarStmt Parse.FnTail Parse.Init Parse.Members Parse.MethodTail Parse.Template Parse.PQName Parse.Using Parse.EnumDecl Parse.ClassEnum Parse.TemplateArg Parse.CtorDtor Parse.ParamsX Parse.DeclStmt Parse.TemplateStmt Parse.MemberStmt Parse.OpName.
-From CXV Require Parse.DispatchLang Gen.Dispatch Parse.FinishClass Parse.ConvOp.
+From CXV Require Parse.DispatchLang Gen.Dispatch Parse.FinishClass Parse.ConvOp Parse.OperatorMember.
 From CXV Require Parse.Requires.
 Open Scope N_scope.
 
@@ -875,8 +875,23 @@ Definition run_conv_stmt (args : list N) : list N :=
   | DErr e => [1; e]
   end.
 
+(* 114: an overloaded-operator member statement in a class body.  Output: 0, rest length, nine specifier flags, operator
+   token count, operator tokens, type length, function type, then the method tail as for 94 *)
+Definition run_op_member (args : list N) : list N :=
+  let toks := dec_tks args in
+  match OperatorMember.op_member_stmt (4 * length toks + 8) toks with
+  | DOk (om, rest) =>
+      let q := OperatorMember.om_tail om in
+      let x := enc_ty (TFn (OperatorMember.om_ret om) (OperatorMember.om_params om) (OperatorMember.om_vararg om)) in
+      0 :: nlen rest :: enc_mods (OperatorMember.om_mods om) ++ nlen (OperatorMember.om_op om) :: enc_tks (OperatorMember.om_op om) ++ nlen x :: x ++
+        bN (q_const q) :: bN (q_volatile q) :: bN (q_override q) :: bN (q_final q) :: q_ref q ::
+        enc_opt_tks (q_throw q) ++ enc_opt_tks (q_noexcept q) ++ [bN (q_pure q); bN (q_deleted q); bN (q_default q); bN (q_body q)]
+  | DErr e => [1; e]
+  end.
+
 Definition run_case (cmd : N) (args : list N) : list N :=
   match cmd, args with
+  | 114, _ => run_op_member args
   | 113, _ => run_conv_stmt args
   | 112, _ => run_finish_class args
   | 111, _ => run_dispatch args
